@@ -33,12 +33,19 @@ typedef struct Stream {
     int mode;                /* 0 read, 1 write */
     int std;                 /* 0 file, 1 stdin, 2 stdout, 3 stderr */
     int closed;
+    FILE *fp;
+    int fd_only;             /* opened with open(): no FILE */
+    struct Stream *lnext;
     sim_rng rng;
 } Stream;
 
 static SFile *g_files;
+#include <stdarg.h>
+#include <fcntl.h>
+#include <unistd.h>
 static SFile g_stdin_file, g_stdout_file, g_stderr_file;
 static Stream *g_stdin_stream;
+static Stream *g_streams;
 static FILE *g_sim_stdin, *g_sim_stdout, *g_sim_stderr;
 static FILE *g_real_stdin, *g_real_stdout, *g_real_stderr;
 static int g_stdin_closed_by_kalign, g_stdin_kind;  /* 0 tty, 1 closed, 2 empty, 3 pipe */
@@ -160,11 +167,35 @@ static ssize_t ck_write(void *ck, const char *buf, size_t size)
     return (ssize_t)size;
 }
 
+static int ck_seek(void *ck, off64_t *off, int whence)
+{
+    Stream *s = ck;
+    SFile *f = s->f;
+    off64_t base = whence == SEEK_SET ? 0 : (whence == SEEK_CUR ? (off64_t)s->pos : (off64_t)f->n);
+    off64_t np = base + *off;
+    if (s->std || np < 0) { errno = s->std ? ESPIPE : EINVAL; return -1; }    /* pipes and terminals do not seek */
+    if (s->mode == 0 && np > (off64_t)f->n) np = (off64_t)f->n;
+    s->pos = (size_t)np;
+    *off = np;
+    return 0;
+}
+
+/* ---- descriptor level (open/read/lseek/fstat/close/fileno): a change of kalign that reads through
+   descriptors instead of stdio still sees the simulated files.  Fake descriptors start at SIM_FD0. */
+#define SIM_FD0 1000
+#define SIM_NFD 64
+static Stream *g_fd[SIM_NFD];
+static int fd_alloc(Stream *st) { for (int i = 0; i < SIM_NFD; i++) if (!g_fd[i]) { g_fd[i] = st; return SIM_FD0 + i; } errno = EMFILE; return -1; }
+static Stream *fd_get(int fd) { return fd >= SIM_FD0 && fd < SIM_FD0 + SIM_NFD ? g_fd[fd - SIM_FD0] : NULL; }
+static void fd_drop(Stream *st) { for (int i = 0; i < SIM_NFD; i++) if (g_fd[i] == st) g_fd[i] = NULL; }
+
 static int ck_close(void *ck)
 {
     Stream *s = ck;
     if (s->std == 1) { g_stdin_closed_by_kalign = 1; g_stdin_stream = NULL; }
     if (!s->std) g_open_streams--;
+    fd_drop(s);
+    for (Stream **pp = &g_streams; *pp; pp = &(*pp)->lnext) if (*pp == s) { *pp = s->lnext; break; }
     sim_xfree(s);
     return 0;
 }
@@ -176,12 +207,20 @@ static FILE *open_stream(SFile *f, int mode, int std)
     uint64_t h = W.fs_seed;
     for (const char *p = f->path ? f->path : "std"; *p; p++) h = h * 1099511628211ULL + (unsigned char)*p;
     s->rng.s = h ^ (uint64_t)mode;
-    cookie_io_functions_t io = { mode ? NULL : ck_read, mode ? ck_write : NULL, NULL, ck_close };
+    cookie_io_functions_t io = { mode ? NULL : ck_read, mode ? ck_write : NULL, ck_seek, ck_close };
     FILE *fp = fopencookie(s, mode ? "w" : "r", io);
     if (!fp) { sim_xfree(s); return NULL; }
+    s->fp = fp;
     if (!std) g_open_streams++;
     if (std == 1) g_stdin_stream = s;
+    s->lnext = g_streams; g_streams = s;
     return fp;
+}
+
+static Stream *g_all_streams_lookup(FILE *fp)
+{
+    for (Stream *s = g_streams; s; s = s->lnext) if (s->fp == fp) return s;
+    return NULL;
 }
 
 /* ------------------------------------------------------------------ wrapped libc entry points */
@@ -244,7 +283,8 @@ int __real_isatty(int fd);
 int __wrap_isatty(int fd)
 {
     if (!g_in_call) return __real_isatty(fd);
-    /* kalign only ever asks about stdin (fileno of the cookie stream is -1) */
+    /* kalign only ever asks about stdin */
+    if (fd_get(fd) || fd == 1 || fd == 2) { errno = ENOTTY; return 0; }
     if (!g_stdin_tty) errno = ENOTTY;
     return g_stdin_tty;
 }
@@ -260,6 +300,112 @@ void __wrap_exit(int code)
     __real_exit(code);
 }
 int simfs_exit_armed(void) { return g_exit_armed; }
+
+static Stream *g_all_streams_lookup(FILE *fp);
+
+int __real_fileno(FILE *fp);
+int __wrap_fileno(FILE *fp)
+{
+    if (!g_in_call) return __real_fileno(fp);
+    Stream *st = g_all_streams_lookup(fp);
+    if (!st) return __real_fileno(fp);
+    if (st->std) return st->std - 1;                      /* 0,1,2 - only ever handed to isatty() */
+    for (int i = 0; i < SIM_NFD; i++) if (g_fd[i] == st) return SIM_FD0 + i;
+    return fd_alloc(st);
+}
+
+int __real_open(const char *path, int flags, ...);
+int __wrap_open(const char *path, int flags, ...)
+{
+    if (!g_in_call) { va_list ap; va_start(ap, flags); int mode = va_arg(ap, int); va_end(ap); return __real_open(path, flags, mode); }
+    int wr = (flags & 3) != 0;
+    SFile *f = sf_find(path);
+    if (!wr) {
+        if (f && f->openr_err) { errno = f->openr_err; g_probe[PR_FS_OPEN_FAULTS]++; return -1; }
+        if (!f || f->kind == '?') { errno = ENOENT; g_probe[PR_FS_OPEN_FAULTS]++; return -1; }
+        if (f->kind == 'x') { errno = EACCES; g_probe[PR_FS_OPEN_FAULTS]++; return -1; }
+    } else {
+        int err = 0;
+        if (f && f->openw_err) { errno = f->openw_err; g_probe[PR_FS_OPEN_FAULTS]++; return -1; }
+        if (f && (f->kind == 'd' || f->kind == 'D')) { errno = EISDIR; g_probe[PR_FS_OPEN_FAULTS]++; return -1; }
+        if (f && f->kind == 'r') { errno = EACCES; g_probe[PR_FS_OPEN_FAULTS]++; return -1; }
+        if ((!f || f->kind == '?') && !parent_ok(path, &err)) { errno = err; g_probe[PR_FS_OPEN_FAULTS]++; return -1; }
+        if (!f) f = sf_new(path, 'f');
+        if (f->kind == '?') f->kind = 'f';
+        if (flags & 01000) f->n = 0;                      /* O_TRUNC */
+        f->written = 1;
+    }
+    Stream *st = sim_xcalloc(1, sizeof *st);
+    st->f = f; st->mode = wr; st->fd_only = 1;
+    uint64_t h = W.fs_seed;
+    for (const char *p = f->path; *p; p++) h = h * 1099511628211ULL + (unsigned char)*p;
+    st->rng.s = h ^ (uint64_t)wr;
+    int fd = fd_alloc(st);
+    if (fd < 0) { sim_xfree(st); return -1; }
+    g_open_streams++;
+    return fd;
+}
+
+ssize_t __real_read(int fd, void *buf, size_t n);
+ssize_t __wrap_read(int fd, void *buf, size_t n)
+{
+    Stream *st = g_in_call ? fd_get(fd) : NULL;
+    if (!st) {
+        if (g_in_call && fd == 0 && g_stdin_stream) return ck_read(g_stdin_stream, buf, n);
+        return __real_read(fd, buf, n);
+    }
+    return ck_read(st, buf, n);
+}
+
+ssize_t __real_write(int fd, const void *buf, size_t n);
+ssize_t __wrap_write(int fd, const void *buf, size_t n)
+{
+    Stream *st = g_in_call ? fd_get(fd) : NULL;
+    if (!st) return __real_write(fd, buf, n);
+    ssize_t r = ck_write(st, buf, n);
+    return r == 0 && n ? -1 : r;
+}
+
+off_t __real_lseek(int fd, off_t off, int whence);
+off_t __wrap_lseek(int fd, off_t off, int whence)
+{
+    Stream *st = g_in_call ? fd_get(fd) : NULL;
+    if (!st) return __real_lseek(fd, off, whence);
+    off64_t o = off;
+    return ck_seek(st, &o, whence) == 0 ? (off_t)o : (off_t)-1;
+}
+
+int __real_close(int fd);
+int __wrap_close(int fd)
+{
+    Stream *st = g_in_call ? fd_get(fd) : NULL;
+    if (!st) return __real_close(fd);
+    if (st->fd_only) { g_fd[fd - SIM_FD0] = NULL; g_open_streams--; sim_xfree(st); }
+    return 0;
+}
+
+int __real_fstat(int fd, struct stat *sb);
+int __wrap_fstat(int fd, struct stat *sb)
+{
+    Stream *st = g_in_call ? fd_get(fd) : NULL;
+    if (!st) return __real_fstat(fd, sb);
+    memset(sb, 0, sizeof *sb);
+    sb->st_mode = (st->f->kind == 'd' || st->f->kind == 'D') ? (S_IFDIR | 0755) : (S_IFREG | 0644);
+    sb->st_size = (off_t)st->f->n;
+    return 0;
+}
+
+int __real_access(const char *path, int mode);
+int __wrap_access(const char *path, int mode)
+{
+    if (!g_in_call) return __real_access(path, mode);
+    SFile *f = sf_find(path);
+    (void)mode;
+    if (f && f->stat_err) { errno = f->stat_err; g_probe[PR_FS_STAT_FAULTS]++; return -1; }
+    if (!f || f->kind == '?') { errno = ENOENT; return -1; }
+    if (f->kind == 'x' && (mode & 4)) { errno = EACCES; return -1; }
+    return 0;
+}
 
 /* ------------------------------------------------------------------ std stream swapping */
 
